@@ -353,6 +353,13 @@ func checkBudgetTransport(r *Run, prog *Program, a *Anchors, newParser, maxExprO
 				continue
 			}
 			budget := &Sym{K: sField, A: lf.getOpts.Res, Str: optField(prog, "WithMaxExpressions")}
+			if ost := optionsStruct(prog); ost != nil {
+				for i := 0; i < ost.NumFields(); i++ {
+					if ost.Field(i).Name() == budget.Str {
+						budget.T = ost.Field(i).Type()
+					}
+				}
+			}
 			isZero, known := evalEq(sm.St, budget, &Sym{K: sConst, C: constant.MakeInt64(0)})
 			if !known {
 				r.Check(pfx+".transport", "CreateEvaluator:zero-test", prog.pos(ev.Instr.Pos()), false, "grammar.Parse is reached without testing the budget for zero")
@@ -394,8 +401,8 @@ func checkBudgetTransport(r *Run, prog *Program, a *Anchors, newParser, maxExprO
 			if !strings.Contains(k, bk) {
 				continue
 			}
-			if k == "cmp(==,"+bk+",const(0))" || k == "cmp(==,const(0),"+bk+")" {
-				continue
+			if k == "cmp(==,"+bk+",const(0))" || k == "cmp(==,const(0),"+bk+")" || k == "cmp(>,"+bk+",const(0))" || k == "cmp(!=,"+bk+",const(0))" {
+				continue // (an unsigned budget: > 0 is ≠ 0)
 			}
 			okUse, whyUse = false, k
 		}
